@@ -93,21 +93,21 @@ func renderValue(t *rapid.T, neg bool, digits string, e10 int64, maxShift int) s
 // dress puts the literal in quotes / escapes / outer whitespace.
 func dress(t *rapid.T, lit string) (string, string) {
 	switch rapid.IntRange(0, 19).Draw(t, "dress") {
-	case 0, 1, 2, 3, 4:
+	case 10, 11, 12, 13, 14:
 		return `"` + lit + `"`, "quoted"
-	case 5:
+	case 15, 16:
 		if len(lit) == 0 {
 			return `""`, "quoted"
 		}
 		i := rapid.IntRange(0, len(lit)-1).Draw(t, "escAt")
 		return `"` + lit[:i] + fmt.Sprintf(`\u%04x`, lit[i]) + lit[i+1:] + `"`, "escaped"
-	case 6:
+	case 17, 18:
 		ws := rapid.SampledFrom([]string{" ", "\n", "\t", "\r\n", "  "}).Draw(t, "ws")
 		if rapid.Bool().Draw(t, "wsBefore") {
 			return ws + lit, "outer-space"
 		}
 		return lit + ws, "outer-space"
-	case 7:
+	case 19:
 		in := rapid.SampledFrom([]string{" ", "\\t", "\\n"}).Draw(t, "innerWs")
 		if rapid.Bool().Draw(t, "inBefore") {
 			return `"` + in + lit + `"`, "inner-space"
